@@ -384,8 +384,16 @@ def execute(h):
     clock_fault = {}    # id of spec -> fault mode armed for the next read
 
     class NamedConverter(MoneyConverter):
-        """a MoneyConverter is a MoneyConverter, also when sub-classed"""
+        """a MoneyConverter is a MoneyConverter, also when sub-classed;
+        this one compares the way hand-written classes often do: without
+        asking what the other one is (AttributeError against a plain
+        converter)"""
         name = 'house rates'
+
+        def __eq__(self, other):
+            return self.name == other.name
+
+        __hash__ = object.__hash__
 
     def build_mconv(spec, scale=1):
         base = curs[spec['base'] % n_cur]
